@@ -70,7 +70,8 @@ Proof. exact C16_step_refines_reachable. Qed.
 Print Assumptions C16_refinement_step.
 
 Theorem C16_refinement_run :
-  (forall cfg, R (m_init cfg) s_init) /\ (forall m, R m (abs_state m)) /  (forall cfg h0 s0 h, R (m_run cfg h0) s0 -> Forall (fun e => no_reload e = true) h ->
+  (forall cfg, R (m_init cfg) s_init) /\ (forall m, R m (abs_state m)) /\
+  (forall cfg h0 s0 h, R (m_run cfg h0) s0 -> Forall (fun e => no_reload e = true) h ->
      R (m_run cfg (h0 ++ h)) (s_run_from cfg s0 h)).
 Proof. exact (conj C16_R_init_proof (conj C16_R_abs_proof C16_run_refines_proof)). Qed.
 Print Assumptions C16_refinement_run.
